@@ -15,14 +15,17 @@ using Gudhi::persistence_matrix::Column_indexation_types;
 using Gudhi::persistence_matrix::Column_types;
 
 // FL: 0 base, 1 boundary-only(+barcode), 2 RU, 3 chain
-template <int FL, Column_types CT, bool Z2, int RA, bool MAPC, bool REM, bool VINE, bool REP, bool COMP>
+// IDX: 0 container, 1 position, 2 identifier indexing (cells are inserted without explicit ids, so the three coincide as numbers
+// and the same driver applies; the overlays Position_to_index_overlay / Id_to_index_overlay carry their own copy/move/swap code)
+template <int FL, Column_types CT, bool Z2, int RA, bool MAPC, bool REM, bool VINE, bool REP, bool COMP, int IDX = 0>
 struct Opt {
   using Field_coeff_operators = Gudhi::persistence_fields::Zp_field_operators<>;
   using Index = unsigned int;
   using Dimension = int;
   static const bool is_z2 = Z2;
   static const Column_types column_type = CT;
-  static const Column_indexation_types column_indexation_type = Column_indexation_types::CONTAINER;
+  static const Column_indexation_types column_indexation_type =
+      IDX == 0 ? Column_indexation_types::CONTAINER : IDX == 1 ? Column_indexation_types::POSITION : Column_indexation_types::IDENTIFIER;
   static const bool has_matrix_maximal_dimension_access = false;
   static const bool has_column_pairings = (FL != 0);
   static const bool has_vine_update = VINE;
